@@ -47,3 +47,12 @@ KERNEL int K(k_avg_pool2d_fn)(const size_t* shape, const u8* d, const size_t* ks
   if (!nm::has_value(mr)) return 0; const auto& r = nm::unwrap(mr);
   put(nm::shape(r), oshape); *out = (float)r(idx[0],idx[1],idx[2],idx[3]); return 1;
 }
+
+// signed elements (negative values: the maximum of an all-negative window is negative)
+KERNEL int K(k_max_pool2d_i8)(const size_t* shape, const u8* d, const size_t* ks, const size_t* st, int ceil_mode, const size_t* idx, size_t* oshape, int* out){
+  hyb_t<signed char,32,4> a; if (!a.resize(shape[0],shape[1],shape[2],shape[3])) return -1; { size_t n = nm::size(a); K(k_fill_u8)((u8*)&a.data_[0], d, n); }
+  auto v = view::max_pool2d(a, mk_arr<size_t,2>(ks), mk_arr<size_t,2>(st), (bool)ceil_mode);
+  put(nm::shape(v), oshape);
+  *out = (int)v(idx[0],idx[1],idx[2],idx[3]);
+  return 1;
+}
